@@ -174,13 +174,13 @@ func (in *Interp) concretize(t *Term, what string) uint64 {
 // ---- results ----
 
 type Obligation struct {
-	Label      string `json:"label"`
-	Pos        string `json:"pos"`
-	Reached    int    `json:"reached"`
-	Trivial    int    `json:"trivially_true"`
-	Discharged int    `json:"discharged_unsat"`
-	Violated   int    `json:"violated_sat"`
-	Unknown    int    `json:"unknown"`
+	Label      string  `json:"label"`
+	Pos        string  `json:"pos"`
+	Reached    int     `json:"reached"`
+	Trivial    int     `json:"trivially_true"`
+	Discharged int     `json:"discharged_unsat"`
+	Violated   int     `json:"violated_sat"`
+	Unknown    int     `json:"unknown"`
 	SolverS    float64 `json:"solver_s"`
 }
 
